@@ -346,6 +346,20 @@ var pinned = []struct {
 	{true, " \t\n", "a b", false, false, 2},
 	{true, " \t\n", "", false, false, 2},
 	{true, " \t\n", "a \\", false, false, 1},
+	// a field ended by IFS white space, then two or more non-white-space IFS characters
+	{true, " :", "x ::y\n", false, false, 3},
+	{true, " :", "x ::y\n", false, true, 1},
+	{true, " :", "x : :y\n", false, false, 4},
+	{true, " :", "x  :: : y\n", true, true, 1},
+	// a continuation followed directly by a newline or by another continuation
+	{true, " \t\n", "a\\\n\nb\n", false, false, 2},
+	{true, " \t\n", "\\\n\nb\n", false, false, 1},
+	{true, " \t\n", "a\\\n\\\nb c\nd\n", false, false, 2},
+	{true, " \t\n", "a\\\n\\\nb c\nd\n", false, false, 0},
+	// bare read: an escaped backslash stays, with and without -r
+	{true, " \t\n", "a\\\\b \\c\n", false, false, 0},
+	{true, " \t\n", "a\\\\b \\c\n", true, false, 0},
+	{true, " \t\n", "\\\\\n", false, false, 0},
 	// the rest of the line consists of escaped blanks only: trimEnd lies before the field's start
 	{true, " \t\n", "a \\  \\ \n", false, false, 2},
 	{true, " \t\n", "\\  \\ \n", false, false, 1},
